@@ -338,6 +338,9 @@ func (p *Prog) mayBeNilErr(v ssa.Value, b *ssa.BasicBlock, depth int) bool {
 	if depth > 6 {
 		return true
 	}
+	if p.nonNilAt(v, b) {
+		return false
+	}
 	switch x := v.(type) {
 	case *ssa.Const:
 		return x.Value == nil
